@@ -490,6 +490,13 @@ class Engine:
             if mm:
                 return FnPtr(mm.group(1))
             return Agg(strip_generics(t).split('::')[-1], [])
+        m = re.match(r'^\{alloc(\d+): &', txt)
+        if m and m.group(1) in mirparse.ALLOCS:
+            # a reference to a `static`: evaluate its initialiser
+            sname = mirparse.ALLOCS[m.group(1)]
+            for fn_name, f in self.fns.items():
+                if (fn_name == sname or fn_name.endswith('::' + sname) or sname.endswith('::' + fn_name)) and not f.params and f.blocks:
+                    return Ref(self.alloc(self.call_sync(f, [])))
         if txt.startswith('{alloc') or txt.startswith('&') or txt.startswith('['):
             return Opaque('alloc:' + txt[:60])
         name = strip_generics(txt)
